@@ -88,6 +88,43 @@ fn ext_menu() -> Vec<String> {
     vec!["".into(), "-u-ca-buddhist".into(), "-t-de-h0-hybrid".into(), "-t-en-u-abc-nu-thai-x-priv".into()]
 }
 
+/// one CLDR entry K -> V: through the function and through the public in-place API from the key string
+pub fn check_c06_entry(u: &Universe, k: &str, v: &str, l0: &Local, coll: &Collector) {
+    let kt = u.lk.ids_of(k).expect("key in universe");
+    let vt = u.lk.ids_of(v).expect("value in universe");
+    let out = lmax(u.lib(kt));
+    if out != Ok(Some(u.lib(vt))) {
+        tviol(coll, l0, "c06.entry", "maximize(K) != V for a CLDR entry".into(), u, kt, format!("Some({})", v),
+              match &out { Ok(o) => Universe::show_lib(o), Err(p) => format!("PANIC({})", p) });
+    }
+    let mut li: LanguageIdentifier = k.parse().expect("CLDR key parses");
+    let changed = li.maximize();
+    if li.to_string() != *v || !changed {
+        tviol(coll, l0, "c06.entry", "LanguageIdentifier(K).maximize() != V".into(), u, kt, format!("true, {}", v), format!("{}, {}", changed, li));
+    }
+}
+
+/// LanguageIdentifier::maximize (bool + fields) against likelysubtags::maximize on one triple
+pub fn check_c06_inplace(u: &Universe, t: Triple, l: &mut Local, coll: &Collector) {
+    let x = u.lib(t);
+    let mut li = LanguageIdentifier::from_parts(x.0, x.1, x.2, &[]);
+    let changed = match guard_total(|| li.maximize()) {
+        Ok(c) => c,
+        Err(p) => {
+            tviol(coll, l, "c06.panic", format!("LanguageIdentifier::maximize panics: {}", p), u, t, "a value".into(), p);
+            return;
+        }
+    };
+    let f = likelysubtags::maximize(x.0, x.1, x.2);
+    let want = f.unwrap_or(x);
+    if changed != f.is_some() || (li.language, li.script, li.region) != want {
+        tviol(coll, l, "c06.inplace", "LanguageIdentifier::maximize disagrees with likelysubtags::maximize".into(), u, t,
+              format!("{} {}", f.is_some(), Universe::show_lib(&Some(want))),
+              format!("{} {}", changed, li));
+    }
+    l.nontrivial += changed as u64;
+}
+
 /// sub-universe for the in-place API: every key of the multi-subtag tables, plus a stride of L
 pub fn sub_universe(u: &Universe) -> (Vec<Id>, Vec<Id>, Vec<Id>) {
     let mut ls: std::collections::BTreeSet<Id> = std::collections::BTreeSet::new();
@@ -123,19 +160,7 @@ pub fn run_c06(ctx: &Ctx) -> Report {
         }
         n_entries += 1;
         l0.order = n_entries;
-        let kt = u.lk.ids_of(k).expect("key in universe");
-        let vt = u.lk.ids_of(v).expect("value in universe");
-        let out = lmax(u.lib(kt));
-        if out != Ok(Some(u.lib(vt))) {
-            tviol(&coll, &l0, "c06.entry", "maximize(K) != V for a CLDR entry".into(), &u, kt, format!("Some({})", v),
-                  match &out { Ok(o) => Universe::show_lib(o), Err(p) => format!("PANIC({})", p) });
-        }
-        // and through the public in-place API, from the key *string*
-        let mut li: LanguageIdentifier = k.parse().expect("CLDR key parses");
-        let changed = li.maximize();
-        if li.to_string() != *v || !changed {
-            tviol(&coll, &l0, "c06.entry", "LanguageIdentifier(K).maximize() != V".into(), &u, kt, format!("true, {}", v), format!("{}, {}", changed, li));
-        }
+        check_c06_entry(&u, k, v, &l0, &coll);
     }
     // (b) all triples
     let st = par_range(ctx, "E4.triples", u.size(), 1 << 14, &|idx, l| {
@@ -153,24 +178,7 @@ pub fn run_c06(ctx: &Ctx) -> Report {
         let r = sr[(idx % sr.len() as u64) as usize];
         let s = ss[((idx / sr.len() as u64) % ss.len() as u64) as usize];
         let la = sl[(idx / (sr.len() * ss.len()) as u64) as usize];
-        let t = (la, s, r);
-        let x = u.lib(t);
-        let mut li = LanguageIdentifier::from_parts(x.0, x.1, x.2, &[]);
-        let changed = match guard_total(|| li.maximize()) {
-            Ok(c) => c,
-            Err(p) => {
-                tviol(&coll, l, "c06.panic", format!("LanguageIdentifier::maximize panics: {}", p), &u, t, "a value".into(), p);
-                return;
-            }
-        };
-        let f = likelysubtags::maximize(x.0, x.1, x.2);
-        let want = f.unwrap_or(x);
-        if changed != f.is_some() || (li.language, li.script, li.region) != want {
-            tviol(&coll, l, "c06.inplace", "LanguageIdentifier::maximize disagrees with likelysubtags::maximize".into(), &u, t,
-                  format!("{} {}", f.is_some(), Universe::show_lib(&Some(want))),
-                  format!("{} {}", changed, li));
-        }
-        l.nontrivial += changed as u64;
+        check_c06_inplace(&u, (la, s, r), l, &coll);
     });
     rep.add_space("E4.inplace", json!({"languages": sl.len(), "scripts": ss.len(), "regions": sr.len(), "triples": n,
         "what": "LanguageIdentifier::maximize on {languages that key a multi-subtag entry, every 14th language, unknowns} x S x R"}), &st2);
@@ -305,7 +313,7 @@ pub fn run_c07(ctx: &Ctx) -> Report {
     // the returned bool and the other per-call clauses, on every reachable state of H-id / H-cross
     {
         let keep: Vec<(u64, u64, Violation)> = rep.collector.classes();
-        let sum = super::history::run_harnesses(ctx, &["H-id", "H-cross"], &["c07."], &mut rep, false);
+        let sum = super::history::run_harnesses(ctx, if ctx.quick() { &["H-id", "H-cross-s"] } else { &["H-id", "H-cross"] }, &["c07."], &mut rep, false);
         super::history::fill_report(&mut rep, &sum, "C07: maximize as an action of the mutation histories");
         let _ = keep;
     }
@@ -471,7 +479,7 @@ pub fn run_c08(ctx: &Ctx) -> Report {
     // the returned bool and the other per-call clauses, on every reachable state of H-id / H-cross
     {
         let keep: Vec<(u64, u64, Violation)> = rep.collector.classes();
-        let sum = super::history::run_harnesses(ctx, &["H-id", "H-cross"], &["c08."], &mut rep, false);
+        let sum = super::history::run_harnesses(ctx, if ctx.quick() { &["H-id", "H-cross-s"] } else { &["H-id", "H-cross"] }, &["c08."], &mut rep, false);
         super::history::fill_report(&mut rep, &sum, "C08: minimize as an action of the mutation histories");
         let _ = keep;
     }
@@ -489,7 +497,15 @@ pub fn replay(ctx: &Ctx, sub: &'static str, text: &str, coll: &Collector) {
     let Some(t) = u.lk.ids_of(name) else { return };
     let mut l = Local::new();
     match &sub[..3] {
-        "c06" => check_c06_triple(&u, t, &mut l, coll),
+        "c06" => {
+            check_c06_triple(&u, t, &mut l, coll);
+            check_c06_inplace(&u, t, &mut l, coll);
+            for (k, v) in &u.lk.entries {
+                if k != "und" && u.lk.ids_of(k) == Some(t) {
+                    check_c06_entry(&u, k, v, &l, coll);
+                }
+            }
+        }
         "c07" => {
             check_c07_triple(&u, t, &mut l, coll);
             for vi in 0..variants_menu().len() {
